@@ -521,6 +521,11 @@ func dynReplay(dir string, judge func(files map[string]string, d dynCalls) strin
 }
 
 func dynReplayRes(dir string, judge func(files map[string]string, res *native.Result) string) string {
+	return dynReplayOpt(dir, native.Options{Workers: 4}, nil, 1, judge)
+}
+
+// dynReplayOpt re-runs a stored program natively (rounds times, results accumulated) and re-judges it.
+func dynReplayOpt(dir string, opt native.Options, gomaxprocs []int, rounds int, judge func(files map[string]string, res *native.Result) string) string {
 	main, err := os.ReadFile(filepath.Join(dir, "main.go"))
 	if err != nil {
 		return "HARNESS cannot read main.go"
@@ -535,11 +540,17 @@ func dynReplayRes(dir string, judge func(files map[string]string, res *native.Re
 	}
 	c := &flowCase{Prog: &gogen.Program{Main: string(main)}, Vals: exp.Valuations, Key: core.Hash(string(main))}
 	sdir, _ := os.MkdirTemp(env.Out, "replay-native")
-	m, err := native.RunBatch(sdir, []native.Unit{c.unit()}, native.Options{Workers: 4})
-	if err != nil || m[c.Key] == nil || m[c.Key].BuildErr != "" {
-		return fmt.Sprintf("HARNESS native replay failed: %v", err)
+	acc := &native.Result{Key: c.Key}
+	for r := 0; r < rounds; r++ {
+		u := c.unit()
+		u.GoMaxProcs = gomaxprocs
+		m, err := native.RunBatch(fmt.Sprintf("%s-%d", sdir, r), []native.Unit{u}, opt)
+		if err != nil || m[c.Key] == nil || m[c.Key].BuildErr != "" {
+			return fmt.Sprintf("HARNESS native replay failed: %v", err)
+		}
+		acc.Runs = append(acc.Runs, m[c.Key].Runs...)
 	}
-	return judge(c.files(), m[c.Key])
+	return judge(c.files(), acc)
 }
 
 func init() {
